@@ -449,6 +449,54 @@ fn reuse_body(ch: &Chooser, set: &[(&'static str, GRec)], header: &sam::Header, 
     }
 }
 
+/// Every sequence of up to three `write_alignment_record` calls on ONE writer over accepted records and
+/// one record per rejection reason (see `gsam::wseq`): rejected writes return `Err` and leave nothing
+/// behind; the file holds exactly the accepted records.
+fn wseq_body(ch: &Chooser, ops: &[(&'static str, GRec)], header: &sam::Header, fmts: &[Fmt]) -> Outcome {
+    const POS: [&str; 3] = ["op1", "op2", "op3"];
+    let fmt = *ch.pick_free("target", fmts);
+    let mut idx = Vec::new();
+    for p in POS {
+        let k = ch.free(p, ops.len() + 1);
+        if k == 0 {
+            break;
+        }
+        idx.push(k - 1);
+    }
+    let seq: Vec<&GRec> = idx.iter().map(|&i| &ops[i].1).collect();
+    let labels: Vec<&str> = idx.iter().map(|&i| ops[i].0).collect();
+    let describe = || {
+        let recs: Vec<String> = seq.iter().map(|g| g.render()).collect();
+        format!("3 references; one {fmt:?} writer; write_alignment_record x [{}]: {}", labels.join(", "), recs.join(" | "))
+    };
+    ch.desc(|| describe());
+    match gsam::wseq::check_ops(fmt, header, 3, &seq) {
+        Ok(o) => {
+            ch.obs_hash(&o);
+            if o.accepted.windows(2).any(|w| !w[0] && w[1]) {
+                ch.tag("writer: accepted write directly after a rejected one");
+            }
+            ch.steps(idx.len() as u64 + 9);
+            Ok(())
+        }
+        Err(f) => Err(Violation::new(
+            format!("stage=writer-seq format={} what={} field={} after-reject={}", FMT_NAME(fmt), f.what, f.field, f.after_reject),
+            describe(),
+            f.expected,
+            f.observed,
+        )),
+    }
+}
+
+#[allow(non_snake_case)]
+fn FMT_NAME(f: Fmt) -> &'static str {
+    match f {
+        Fmt::Sam => "sam",
+        Fmt::Bam(Container::Raw) => "bam-raw",
+        Fmt::Bam(Container::Bgzf) => "bam-bgzf",
+    }
+}
+
 fn main() {
     // The heavy alphabet entries allocate and free ~1 MiB vectors tens of thousands of times; keep
     // that memory in the heap instead of paying an mmap/munmap + page-fault round per vector.
@@ -465,6 +513,11 @@ fn main() {
              (outcome, wire core fields, decoded record) observations",
         );
         ctx.rule(
+            "writer sequences: every sequence of 0..3 write_alignment_record calls on one writer over 4 accepted records and one \
+             record per rejection reason (29 operations) x {raw, BGZF}: rejected writes return Err and leave nothing behind, the \
+             file holds exactly the accepted records",
+        );
+        ctx.rule(
             "reuse: every ordered pair and triple over 20 records differing in which optional fields are present (all / none / \
              each single field or tag missing / shorter / longer) x {raw, BGZF}, each file read through 8 reader entry points \
              (fresh, reused clean, reused dirty RecordBuf, record_bufs(), reused/fresh lazy record, records(), lazy->reused RecordBuf); \
@@ -473,6 +526,14 @@ fn main() {
         ctx.assume("miniz_oxide inflate + crc32fast (BGZF walker used to get at the wire bytes of BGZF-wrapped files)");
         ctx.assume("RecordBuf setters/constructors store the given field values (checked per execution by viewing the built record)");
         let headers: Vec<sam::Header> = (0..=3).map(std_header).collect();
+        // accepted and rejected writes interleaved on one writer
+        {
+            let ops = gsam::wseq::op_set();
+            let h3 = headers[3].clone();
+            ctx.harness(Config::new("bam_writer_sequences", 0), |ch| {
+                wseq_body(ch, &ops, &h3, &[Fmt::Bam(Container::Raw), Fmt::Bam(Container::Bgzf)])
+            });
+        }
         // field-presence transitions between consecutive records, every reader entry point
         {
             let set = reuse::record_set();
